@@ -5,7 +5,7 @@
 use crate::mac::*;
 use crate::util::*;
 use lorawan_device::async_device::radio::{PhyRxTx, RxConfig, RxMode, RxQuality, RxStatus, Timer, TxConfig};
-use lorawan_device::async_device::{Device, Error as DevError, JoinMode, JoinResponse, SendResponse, Timings};
+use lorawan_device::async_device::{Device, Error as DevError, JoinMode, JoinResponse, ListenResponse, SendResponse, Timings};
 use lorawan_device::mac::Session;
 use lorawan_device::region;
 use lorawan_device::{AppEui, AppKey, AppSKey, DevAddr, DevEui, NwkSKey};
@@ -320,6 +320,22 @@ impl ARunner {
                 };
                 let dls = self.take_dls();
                 Some(format!("calls={} => {} {} dls={}", calls, res, up, dls))
+            }
+            ["alisten"] => {
+                // `Device::rxc_listen`: what a Class C application awaits while it is not sending
+                self.set_script(&st)?;
+                let r = block_on(self.dev.rxc_listen());
+                let res = match r {
+                    // nothing (more) was heard: the future is still pending and is dropped here
+                    None => "Listening".to_string(),
+                    Some(Ok(ListenResponse::DownlinkReceived(f))) => format!("Ok(DownlinkReceived({}))", f),
+                    Some(Ok(ListenResponse::SessionExpired)) => "Ok(SessionExpired)".into(),
+                    Some(Err(DevError::Radio(_))) => "Err(Radio)".into(),
+                    Some(Err(DevError::Mac(_))) => "Err(Mac)".into(),
+                };
+                let calls = self.take_calls();
+                let dls = self.take_dls();
+                Some(format!("calls={} => {} dls={}", calls, res, dls))
             }
             ["ajoin"] => {
                 self.set_script(&st)?;
